@@ -15,7 +15,7 @@ import re
 
 from .. import engine
 
-FORMATS = ["xyz", "sdf", "pdb", "mol2", "gromacs", "cube", "fcidump", "poscar", "chgcar"]
+FORMATS = ["xyz", "sdf", "pdb", "mol2", "gromacs", "cube", "fcidump", "poscar", "chgcar", "fchk"]
 
 SPEC_RE = re.compile(r"^(?:(.)?([<>=^]))?([-+ ])?(#)?(0)?(\d+)?(,)?(?:\.(\d+))?([a-zA-Z%])?$")
 
@@ -61,6 +61,9 @@ def _spec_field(name: str, spec: str):
         return ("fix", name, sign == " ", w, int(prec))
     if typ in ("e", "E") and align in (None, ">") and prec is not None:
         return ("sci", name, sign == " ", typ == "E", w, int(prec))
+    if typ is None and prec is None and sign is None and align is None and re.match(r"int\(.*\)$|nval$", name):
+        # `{nval:12}` / `{int(val[i]):12}`: an int formatted without a type letter is right-justified like `d`
+        return ("int", name, w)
     if typ in ("s", None) and prec is None and sign is None:
         return ("str", name, w, align == ">")
     return ("other", f"{{{name}:{spec}}}")
@@ -222,7 +225,13 @@ class _FuncWalker(ast.NodeVisitor):
         if (is_print or is_write) and node.args:
             fields = expr_fields(node.args[0], self.env_stack[-1])
             if is_print:
-                fields = [*fields, ("lit", "\n")]
+                end = next((k.value for k in node.keywords if k.arg == "end"), None)
+                if end is None:
+                    fields = [*fields, ("lit", "\n")]
+                elif not (isinstance(end, ast.Constant) and isinstance(end.value, str)):
+                    fields = [*fields, ("other", "end=" + ast.unparse(end))]
+                elif end.value:
+                    fields = [*fields, ("lit", end.value)]
             self.writes.append((self.stack[-1], fields))
         self.generic_visit(node)
 
@@ -395,14 +404,167 @@ def _pdb_layout(x):
     dtitle = re.search(r'data\.title or "([^"]*)"', src).group(1)
     pr = lambda p: f"({p[0]}, {p[1]})"  # noqa: E731
     others = sl[("_parse_pdb_conect_line", "serial_str")]
+    kw = set(re.findall(r"key\.ljust\((\d+)\)", src)) | set(re.findall(r"rjust\((\d+) - len\(key\)\)", src))
+    if len(kw) != 1 or not re.search(r'rjust\(\d+ - len\(key\)\) \+ " "', src):
+        raise LookupError(f"PDB: widths of the multi-line record prefix not found ({kw})")
     return (
         f"def pdbL : Pdb.Layout :=\n  ⟨{ints[0][2]}, {strs[0][2]}, {strs[1][2]}, {ints[1][2]}, {len(gap4)}, {fixs[0][3]}, {fixs[0][4]}, "
         f"{fixs[3][3]}, {fixs[3][4]}, {strs[3][2]}, {[f for f in con if f[0] == 'int'][0][2]},\n   "
         f"{pr(sl[(pa, 'symbol')][0])}, {pr(sl[(pa, 'atname')][0])}, {pr(sl[(pa, 'resname')][0])}, {sl[(pa, 'chainid')][0][0]}, "
         f"{pr(sl[(pa, 'resnum')][0])}, {pr(co[0])}, {pr(co[1])}, {pr(co[2])}, {pr(sl[(pa, 'occupancy')][0])}, {pr(sl[(pa, 'bfactor')][0])}, "
         f"{sl[('load_one', '<expr>')][0][0]}, {pr(sl[('_parse_pdb_conect_line', 'iatom0')][0])}, [{', '.join(pr(p) for p in others)}],\n   "
-        f"{chars(dtitle)}, {chars(loaded)}⟩\n"
+        f"{chars(dtitle)}, {chars(loaded)}, {next(iter(kw))}⟩\n"
     )
+
+
+def _lead_trail(lit: str, letter: str):
+    """'   I     ' -> (3, 5); '   I   N=' -> (3, 3)"""
+    k = lit.index(letter)
+    if lit[:k].strip() != "":
+        raise LookupError("unexpected FCHK literal " + repr(lit))
+    rest = lit[k + 1 :]
+    body = rest[: -2] if rest.endswith("N=") else rest
+    if body.strip() != "":
+        raise LookupError("unexpected FCHK literal " + repr(lit))
+    return k, len(body)
+
+
+def _per_line(tree: ast.Module, func: str) -> int:
+    """the constant in `if k == 6 or i == nval - 1` of an array writer"""
+    for node in ast.walk(tree):
+        if isinstance(node, ast.FunctionDef) and node.name == func:
+            for c in ast.walk(node):
+                if (isinstance(c, ast.Compare) and isinstance(c.left, ast.Name) and c.left.id == "k" and len(c.ops) == 1
+                        and isinstance(c.ops[0], ast.Eq) and isinstance(c.comparators[0], ast.Constant)):
+                    return int(c.comparators[0].value)
+    raise LookupError("no per-line constant in " + func)
+
+
+def _dict_literal(tree: ast.Module, func: str, name: str):
+    for node in ast.walk(tree):
+        if isinstance(node, ast.FunctionDef) and node.name == func:
+            for a in ast.walk(node):
+                if (isinstance(a, ast.Assign) and len(a.targets) == 1 and isinstance(a.targets[0], ast.Name)
+                        and a.targets[0].id == name and isinstance(a.value, ast.Dict)):
+                    return [(k.value, v.value) for k, v in zip(a.value.keys, a.value.values)]
+    raise LookupError(f"no dict {name} in {func}")
+
+
+def _index_vectors(tree: ast.Module, func: str):
+    """`x[[0, 3, 5, 1, 2, 4]]`: fancy-index vectors of integer constants used in a function, with the indexed expression"""
+    out = []
+    for node in ast.walk(tree):
+        if isinstance(node, ast.FunctionDef) and node.name == func:
+            for sub in ast.walk(node):
+                if isinstance(sub, ast.Subscript) and isinstance(sub.slice, ast.List) and sub.slice.elts and all(
+                    isinstance(e, ast.Constant) and isinstance(e.value, int) for e in sub.slice.elts
+                ):
+                    out.append((ast.unparse(sub.value), [e.value for e in sub.slice.elts]))
+    return out
+
+
+@layout("fchk")
+def _fchk_layout(x):
+    src = (engine.REPO / "iodata" / "formats" / "fchk.py").read_text()
+    tree = ast.parse(src)
+    w = {}
+    for fn, fields in x.writes:
+        w.setdefault(fn, []).append(fields)
+    si, sr = w["_dump_integer_scalars"][0], w["_dump_real_scalars"][0]
+    ai, ar = w["_dump_integer_arrays"], w["_dump_real_arrays"]
+    label = next(f for f in si if f[0] == "str")
+    gap, pad_s = _lead_trail(next(f[1] for f in si if f[0] == "lit" and f[1] != "\n"), "I")
+    _, pad_a = _lead_trail(next(f[1] for f in ai[0] if f[0] == "lit" and f[1] != "\n"), "I")
+    int_w = next(f for f in si if f[0] == "int")[2]
+    ssci = next(f for f in sr if f[0] == "sci")
+    asci = next(f for fs in ar for f in fs if f[0] == "sci")
+    d1 = [fs for fs in w["dump_one"]]
+    title = next(f for fs in d1 for f in fs if f[0] == "str" and "data.title" in f[1])
+    hdr = next(fs for fs in d1 if any(f[0] == "str" and f[1].startswith("items[") for f in fs))
+    cmd, lot, bas = [f for f in hdr if f[0] == "str"]
+    cut = next(a_b for a_b in ((b if a == 0 else a) for fn, t, a, b, i in x.slices if fn == "_load_fchk_field"))
+    absent = re.search(r'or "([A-Za-z]+)" for item in \["run_type"', src).group(1)
+    wt = _dict_literal(tree, "dump_one", "run_types")
+    rt = _dict_literal(tree, "load_one", "run_types")
+    qw = [v for e, v in _index_vectors(tree, "dump_one") if "moments" in e]
+    qr = [v for e, v in _index_vectors(tree, "load_one") if "Quadrupole" in e]
+    if len(qw) != 1 or len(qr) != 1:
+        raise LookupError("quadrupole index vectors not found")
+    pairs = lambda t: ", ".join(f"({chars(a)}, {chars(b)})" for a, b in t)  # noqa: E731
+    return (
+        f"def fchkL : Fchk.Layout :=\n  ⟨{title[2]}, {cmd[2]}, {lot[2]}, {bas[2]}, {label[2]}, {gap}, {pad_s}, {pad_a}, {int_w}, "
+        f"{ssci[4]}, {ssci[5]}, {asci[4]}, {asci[5]}, {_per_line(tree, '_dump_integer_arrays')}, {_per_line(tree, '_dump_real_arrays')}, {cut},\n   "
+        f"{chars(_default_title(title[1]))}, {chars(absent)}⟩\n\n"
+        f"def fchkRunTypes : Fchk.RunTypes :=\n  ⟨[{pairs(wt)}],\n   [{pairs(rt)}]⟩\n\n"
+        f"def fchkQuadW : List Nat := {qw[0]}\n\ndef fchkQuadR : List Nat := {qr[0]}\n"
+    )
+
+
+@layout("cube")
+def _cube_layout(x):
+    src = (engine.REPO / "iodata" / "formats" / "cube.py").read_text()
+    tree = ast.parse(src)
+    hdr = [f for fn, f in x.writes if fn == "_write_cube_header"]
+    dat = [f for fn, f in x.writes if fn == "_write_cube_data"]
+    nat = next(f for f in hdr[2] if f[0] == "int")
+    hfx = next(f for f in hdr[2] if f[0] == "fix")
+    dsc = next(f for f in dat[0] if f[0] == "sci")
+    line2 = next(f[1] for f in hdr[1] if f[0] == "lit" and f[1] != "\n")
+    mods, eqs = set(), set()
+    for node in ast.walk(tree):
+        if isinstance(node, ast.FunctionDef) and node.name == "_write_cube_data":
+            for c in ast.walk(node):
+                if isinstance(c, ast.BinOp) and isinstance(c.op, ast.Mod) and isinstance(c.right, ast.Constant):
+                    mods.add(c.right.value)
+                if (isinstance(c, ast.Compare) and isinstance(c.left, ast.BinOp) and isinstance(c.left.op, ast.Mod)
+                        and isinstance(c.comparators[0], ast.Constant) and isinstance(c.ops[0], ast.Eq)):
+                    eqs.add(c.comparators[0].value)
+    if len(mods) != 1 or eqs != {next(iter(mods)) - 1}:
+        raise LookupError(f"cube data loop: moduli {mods}, compared with {eqs}")
+    dtitle = re.search(r'title = data\.title or "([^"]*)"', src).group(1)
+    return (f"def cubeL : Cube.Layout := ⟨{nat[2]}, {hfx[3]}, {hfx[4]}, {dsc[4]}, {dsc[5]}, {next(iter(mods))}, "
+            f"{chars(line2)}, {chars(dtitle)}⟩\n")
+
+
+@layout("mol2")
+def _mol2_layout(x):
+    from iodata.periodic import bond2num
+
+    ws = [f for fn, f in x.writes if fn == "dump_one"]
+    comment, blank, _mol, title, counts, counts0, _atom, atom, _bond, bond = ws
+    ai = [f for f in atom if f[0] == "int"]
+    af = [f for f in atom if f[0] == "fix"]
+    astr = [f for f in atom if f[0] == "str"]
+    res = [f[1] for f in atom if f[0] == "lit" and f[1].strip()][0]
+    if res != " " + res.strip() + " " or af[1][3:] != af[2][3:] or af[0][4] != af[1][4] or [f[2] for f in counts if f[0] == "int"] != [f[2] for f in counts0 if f[0] == "int"]:
+        raise LookupError("unexpected MOL2 atom/counts record")
+    ci = [f for f in counts if f[0] == "int"]
+    bi = [f for f in bond if f[0] == "int"]
+    bs = [f for f in bond if f[0] == "str"]
+    return (f"def mol2L : Mol2.Layout :=\n  ⟨{ci[0][2]}, {ci[1][2]}, {ai[0][2]}, {astr[0][2]}, {af[0][3]}, {af[1][3]}, {af[0][4]}, {astr[1][2]}, {ai[1][2]}, "
+            f"{chars(res.strip())}, {af[3][3]}, {af[3][4]}, {bi[0][2]}, {bi[1][2]}, {bs[0][2]},\n   {chars(comment[0][1])}, {chars(blank[0][1])}, "
+            f"{chars(_default_title(title[0][1]))}, {bond2num['un']}⟩\n")
+
+
+@layout("gromacs")
+def _gro_layout(x):
+    src = (engine.REPO / "iodata" / "formats" / "gromacs.py").read_text()
+    tree = ast.parse(src)
+    sl = [(a, b) for fn, t, a, b, i in x.slices if fn == "_helper_read_frame" and b is not None and t == "<expr>"]
+    if len(sl) != 3:
+        raise LookupError(f"GRO: expected three fixed slices (resnum, resname, atname), found {sl}")
+    starts = set()
+    for node in ast.walk(tree):
+        if (isinstance(node, ast.Call) and isinstance(node.func, ast.Attribute) and node.func.attr == "index"
+                and isinstance(node.func.value, ast.Name) and node.func.value.id == "line" and len(node.args) == 2
+                and isinstance(node.args[1], ast.Constant)):
+            starts.add(node.args[1].value)
+    if len(starts) != 1:
+        raise LookupError(f"GRO: start column of the position fields not found ({starts})")
+    # velocities optional: the velocity loop is guarded by a test on the rest of the line
+    opt = bool(re.search(r"if line\[20 \+ 3 \* width\s*:\]\.strip\(\) != \"\"", src))
+    pr = lambda p: f"({p[0]}, {p[1]})"  # noqa: E731
+    return f"def groL : Gro.Layout := ⟨{pr(sl[0])}, {pr(sl[1])}, {pr(sl[2])}, {next(iter(starts))}, {lb(opt)}⟩\n"
 
 
 def build_gen() -> str:
